@@ -283,6 +283,98 @@ static void sequence_case(Ctx &c, Rng &r, unsigned maxops, size_t maxlen) {
 	else { for(auto &kv : f.as.live) ::free(kv.first); f.as.live.clear(); }
 }
 
+// ------------------------------------------------------------------ other character types
+// The same clauses for Char = wchar_t / char16_t / unsigned char against std::basic_string<Char>. Sources live in GuardedBufs of
+// exactly size*sizeof(Char) bytes and owned buffers come from TrackedAlloc (exact-size blocks): an allocation computed in bytes
+// where characters are meant, or a memcpy counted in characters, is an ASan report or a content mismatch.
+template<typename Char>
+static void wide_case(Ctx &c, const std::basic_string<Char> &x, const std::basic_string<Char> &y, const char *tname) {
+	using WStr = frg::basic_string<Char, TrackedAlloc>;
+	using WView = frg::basic_string_view<Char>;
+	using Ref = std::basic_string<Char>;
+	Fixture f;
+	auto expect = [&](const WStr &s, const Ref &r, const char *how) {
+		if(c.bad) return;
+		if(s.size() != r.size()) return c.fail("size", strf("%s %s: size()=%zu expected %zu", tname, how, s.size(), r.size()));
+		if(!s.data()) return c.fail("null-data", strf("%s %s: data() is null", tname, how));
+		if(s.data()[s.size()] != 0) return c.fail("terminator", strf("%s %s: data()[size()] != 0", tname, how));
+		for(size_t i = 0; i < r.size(); i++) if(s[i] != r[i]) return c.fail("content", strf("%s %s: character %zu differs", tname, how, i));
+	};
+	GuardedBuf gx(x.data(), x.size() * sizeof(Char)), gy(y.data(), y.size() * sizeof(Char));
+	const Char *px = (const Char *)gx.data(), *py = (const Char *)gy.data();
+	WView vx(px, x.size()), vy(py, y.size());
+	{
+		WStr a(px, x.size(), f.al); expect(a, x, "string(ptr,len)");
+		WStr b(vx, f.al); expect(b, x, "string(view)");
+		Ref cz = x.substr(0, x.find(Char(0))); Ref czz = cz; czz.push_back(Char(0));
+		GuardedBuf gc(czz.data(), czz.size() * sizeof(Char));
+		WStr cs((const Char *)gc.data(), f.al); expect(cs, cz, "string(cstr)");
+		if(frg::generic_strlen((const Char *)gc.data()) != cz.size()) c.fail("strlen", strf("%s generic_strlen", tname));
+		WStr fill(x.size(), Char('q'), f.al); expect(fill, Ref(x.size(), Char('q')), "string(size,c)");
+		WStr cp(a); expect(cp, x, "copy");
+		WStr as_(f.al); as_ = a; expect(as_, x, "assignment");
+		{ WStr &r2 = as_; as_ = r2; } expect(as_, x, "self-assignment");
+		for(size_t n : {size_t(0), x.size() / 2, x.size(), x.size() + 3}) { WStr r(a); r.resize(n); if(r.size() != n || !r.data() || r.data()[n] != 0) { c.fail("resize", strf("%s resize(%zu)", tname, n)); break; } for(size_t i = 0; i < std::min(n, x.size()); i++) if(r[i] != x[i]) { c.fail("resize", strf("%s resize(%zu) lost prefix character %zu", tname, n, i)); break; } }
+		WStr cat = a + vy; expect(cat, x + y, "a+view"); expect(a, x, "a after a+view");
+		WStr catc = a + Char(0x1234 & ((1u << (8 * sizeof(Char) - 1)) - 1)); { Ref e = x; e.push_back(Char(0x1234 & ((1u << (8 * sizeof(Char) - 1)) - 1))); expect(catc, e, "a+char"); }
+		WStr app(a); app += vy; expect(app, x + y, "a+=view");
+		WStr app2(a); app2 += WView(app2); expect(app2, x + x, "a+=view(a)");
+		WStr pb(a); { Ref e = x; for(Char ch : y) { pb.push_back(ch); e.push_back(ch); } pb += Char('z'); e.push_back(Char('z')); expect(pb, e, "push_back/+=char sequence"); }
+		WStr o(py, y.size(), f.al);
+		int cmp = a.compare(o);
+		int refc = x.size() != y.size() ? (x.size() < y.size() ? -1 : 1) : 0;
+		if(!refc) for(size_t i = 0; i < x.size(); i++) if(x[i] != y[i]) { refc = x[i] < y[i] ? -1 : 1; break; }
+		if(sgn(cmp) != refc) c.fail("compare", strf("%s compare()=%d expected sign %d", tname, cmp, refc));
+		if((a == o) != (x == y)) c.fail("eq", strf("%s string == string", tname));
+		if((vx == vy) != (x == y) || (vx != vy) == (x == y)) c.fail("eq", strf("%s view ==/!=", tname));
+		swap(a, o); expect(a, y, "swap (first)"); expect(o, x, "swap (second)");
+	}
+	// views
+	for(size_t from = 0; from <= x.size() && !c.bad; from++) {
+		for(Char ch : {Char('a'), Char('b'), Char(0), Char(0x80), Char(0x7f41 & ((1ull << (8 * sizeof(Char))) - 1))}) {
+			size_t r = x.find(ch, from); size_t got = vx.find_first(ch, from);
+			if((r == Ref::npos) ? (got != size_t(-1)) : (got != r)) c.fail("find_first", strf("%s find_first from %zu", tname, from));
+		}
+		size_t r = x.find_first_of(y, from); size_t got = vx.find_first_of(vy, from);
+		if((r == Ref::npos) ? (got != size_t(-1)) : (got != r)) c.fail("find_first_of", strf("%s find_first_of from %zu", tname, from));
+		for(size_t n = 0; from + n <= x.size(); n++) { WView sv = vx.sub_string(from, n); if(sv.size() != n || sv.data() != px + from) { c.fail("sub_string", strf("%s sub_string(%zu,%zu)", tname, from, n)); break; } }
+	}
+	for(Char ch : {Char('a'), Char('b'), Char(0)}) { size_t r = x.rfind(ch); size_t got = vx.find_last(ch); if((r == Ref::npos) ? (got != size_t(-1)) : (got != r)) c.fail("find_last", strf("%s find_last", tname)); }
+	{ bool sw = x.size() >= y.size() && x.compare(0, y.size(), y) == 0, ew = x.size() >= y.size() && x.compare(x.size() - y.size(), y.size(), y) == 0;
+	  if(vx.starts_with(vy) != sw) c.fail("starts_with", strf("%s starts_with", tname)); if(vx.ends_with(vy) != ew) c.fail("ends_with", strf("%s ends_with", tname)); }
+	{ unsigned h1 = frg::hash<WView>()(vx); GuardedBuf g2(x.data(), x.size() * sizeof(Char)); unsigned h2 = frg::hash<WView>()(WView((const Char *)g2.data(), x.size())); if(h1 != h2) c.fail("hash", strf("%s equal views hash differently", tname)); }
+	// digits
+	{ Ref d; for(char ch : std::string("40213")) d.push_back(Char(ch)); GuardedBuf gd(d.data(), d.size() * sizeof(Char)); auto v = WView((const Char *)gd.data(), d.size()).template to_number<int>(); if(!v || *v != 40213) c.fail("to_number", strf("%s to_number(\"40213\")", tname)); }
+}
+
+template<typename Char>
+static void wide_sweep(const char *tname) {
+	std::string mode = std::string("wide:") + tname;
+	if(!want_mode(mode.c_str())) return;
+	// all strings over {a, b, NUL, 0x80-ish} up to length 3, every ordered pair; then random longer ones
+	std::vector<std::basic_string<Char>> all;
+	const Char alpha[4] = {Char('a'), Char('b'), Char(0), Char((Char)(1ull << (8 * sizeof(Char) - 1)) | Char(0x41))};
+	for(unsigned len = 0; len <= 3; len++) { unsigned total = 1; for(unsigned i = 0; i < len; i++) total *= 4; for(unsigned v = 0; v < total; v++) { std::basic_string<Char> s; unsigned w = v; for(unsigned i = 0; i < len; i++) { s.push_back(alpha[w % 4]); w /= 4; } all.push_back(s); } }
+	uint64_t npairs = (uint64_t)all.size() * all.size();
+	for(uint64_t p = opt.shard; p < npairs; p += opt.nshards) {
+		if(!want_case(p)) continue;
+		begin_case(mode.c_str(), p);
+		Ctx c; c.what = strf("%s pair #%llu of all strings over {a,b,NUL,high} up to length 3", tname, (unsigned long long)p);
+		guarded(g_prop.c_str(), [&] { wide_case<Char>(c, all[p / all.size()], all[p % all.size()], tname); });
+		note_distinct(mix(hash_str(mode), p)); count("wide_char_cases");
+	}
+	Rng r(derive_seed(mode.c_str()));
+	for(uint64_t i = 0; i < scaled(300, 20000); i++) {
+		begin_case(mode.c_str(), npairs + i);
+		std::basic_string<Char> x, y;
+		for(size_t k = r.below(40); k; k--) x.push_back(r.chance(1, 8) ? Char(0) : Char(r.next()));
+		for(size_t k = r.below(12); k; k--) y.push_back(r.chance(1, 3) && !x.empty() ? x[r.below(x.size())] : Char(r.next()));
+		Ctx c; c.what = strf("%s random pair #%llu (lengths %zu, %zu)", tname, (unsigned long long)i, x.size(), y.size());
+		guarded(g_prop.c_str(), [&] { wide_case<Char>(c, x, y, tname); });
+		note_distinct(mix(hash_str(mode), npairs + i + opt.shard * 1000003ull)); count("wide_char_cases");
+	}
+}
+
 int main(int argc, char **argv) {
 	parse_args(argc, argv, "c15_strings");
 	if(opt.replay_arg.find("prop=C16") != std::string::npos) g_prop = "C16";
@@ -321,6 +413,9 @@ int main(int argc, char **argv) {
 		rec.notes["exhaustive_strings"] = strf("all %zu strings over {a,b,NUL} up to length %u: every string (unary) and every ordered pair (binary)", all.size(), maxlen);
 		sample("binary battery on (x,y)=(\"ab\",\"b\\0\"): x+view(y), x+=view(y), compare both ways + vs C string, ==, view ==, starts_with/ends_with, x=y");
 	}
+	wide_sweep<wchar_t>("wchar_t");
+	wide_sweep<char16_t>("char16_t");
+	wide_sweep<unsigned char>("unsigned char");
 	if(want_mode("rand")) {
 		Rng sr(derive_seed("rand"));
 		uint64_t n = scaled(1500, 60000);
